@@ -298,7 +298,7 @@ class Engine:
             return z3.is_true(ev(v.e))
         if isinstance(t, TStr):
             r = ev(v.e)
-            return r.as_string() if z3.is_string_value(r) else str(r)
+            return z3_unescape(r.as_string()) if z3.is_string_value(r) else str(r)
         if depth > 3:
             return '...'
         if isinstance(t, TOpt):
@@ -1194,6 +1194,40 @@ class Engine:
             raise OutOfSubset('tuple slice', node)
         raise OutOfSubset('slice on %s' % base.t, node)
 
+    def source_class_const(self, pycls, attr):
+        """A class attribute the model does not know (added by a change to the working tree): if the class body
+        binds it to an int / str / bool literal and no statement of the package assigns to an attribute of that
+        name anywhere, its value is that literal."""
+        c = pycls
+        while c is not None:
+            for module in sorted(self.m.namespaces):
+                try:
+                    _src, tree = self.module_ast(module)
+                except (OSError, KeyError, SyntaxError):
+                    continue
+                for n in tree.body:
+                    if not (isinstance(n, ast.ClassDef) and n.name == c):
+                        continue
+                    for b in n.body:
+                        if isinstance(b, ast.Assign) and len(b.targets) == 1 and isinstance(b.targets[0], ast.Name) \
+                                and b.targets[0].id == attr:
+                            if not (isinstance(b.value, ast.Constant) and isinstance(b.value.value, (bool, int, str))):
+                                return None
+                            for m2 in sorted(self.m.namespaces):
+                                try:
+                                    _s2, t2 = self.module_ast(m2)
+                                except (OSError, KeyError, SyntaxError):
+                                    continue
+                                for x in ast.walk(t2):
+                                    if isinstance(x, ast.Attribute) and x.attr == attr and isinstance(x.ctx, (ast.Store, ast.Del)):
+                                        return None
+                                    if isinstance(x, ast.Call) and isinstance(x.func, ast.Name) and x.func.id == 'setattr':
+                                        pass
+                            v = b.value.value
+                            return mk_bool(v) if isinstance(v, bool) else mk_int(v) if isinstance(v, int) else mk_str(v)
+            c = self.m.subclass_of.get(c)
+        return None
+
     def attr_read(self, st, base, attr, line, node=None):
         if isinstance(base.t, TOpt) and isinstance(base.t.elem, TRef):
             if line is not None:
@@ -1227,11 +1261,17 @@ class Engine:
                 key = self.class_method_key(base.py, attr)
                 if key:
                     return mk_obj('func', key)
+                cv = self.source_class_const(base.py, attr)
+                if cv is not None:
+                    return cv
                 raise OutOfSubset('unknown class attribute %s.%s' % (base.py, attr), node)
             if base.t.kind == 'module':
                 ns = self.m.namespaces.get(base.py, {})
                 if attr in ns:
                     return self.binding_value(st, ns[attr])
+                fk = self.auto_inline_module_function(base.py, attr) if hasattr(self, 'auto_inline_module_function') else None
+                if fk is not None:
+                    return mk_obj('func', fk)
                 raise OutOfSubset('unknown module attribute %s.%s' % (base.py, attr), node)
         raise OutOfSubset('attribute %s on %s' % (attr, base.t), node)
 
